@@ -89,7 +89,8 @@ def main() -> int:
 
         def add(option, variant, doc=None, **kw):
             j = run.job(doc if doc is not None else d, want=["tree", "manifest"], **kw)
-            j["name"] = kw.pop("_name", None) or "option_test_api_client"
+            # unique import name per generated package (the sandbox interpreter is shared between jobs of a worker)
+            j["name"] = f"otc{j['id']}"
             info[j["id"]] = (bi, option, variant)
             jobs.append(j)
             return j
@@ -129,17 +130,34 @@ def main() -> int:
         add("content_type_overrides", "mapped", doc=dct, meta="none", cfg={"content_type_overrides": {"application/x-zq-thing": "application/json"}},
             sandbox=[{"a": "call", "module": "api.default.zq_ct_op", "variants": ["sync_detailed"], "args": {"body": {"$t": "model", "cls": "ZqCtOpBody", "v": {"a": "s-1"}}}, "client": {}, "response": {"status": 200, "headers": [["content-type", "application/x-zq-thing"]], "content": "InMtMiI="}}])
         add("content_type_overrides", "reference", doc=dmap, meta="none")
+        if bi % 4 == 0:
+            for target, bodyschema in (("multipart/form-data", {"type": "object", "properties": {"a": {"type": "string"}}}), ("application/x-www-form-urlencoded", {"type": "object", "properties": {"a": {"type": "string"}}}),
+                                       ("application/octet-stream", {"type": "string", "format": "binary"})):
+                dt = docs.clone(d)
+                dt["paths"]["/zq-ct2"] = {"post": {"operationId": "zq_ct_two", "requestBody": {"content": {"application/vnd.zq.upload": {"schema": bodyschema}}}, "responses": {"200": {"description": "ok"}}}}
+                arg = {"$t": "file", "v": "YWJj", "file_name": "f", "mime_type": "x/y"} if target.endswith("octet-stream") else {"$t": "model", "cls": "ZqCtTwoBody", "v": {"a": "s-1"}}
+                add("content_type_overrides", "sent_as_itself:" + target, doc=dt, meta="none", cfg={"content_type_overrides": {"application/vnd.zq.upload": target}},
+                    sandbox=[{"a": "call", "module": "api.default.zq_ct_two", "variants": ["sync_detailed"], "args": {"body": arg}, "client": {}, "response": {"status": 200}}])
+        if bi % 4 == 1:
+            # multi-tag operations whose module names coincide across tags
+            dg = docs.clone(d)
+            okr = {"200": {"description": "ok"}}
+            dg["paths"]["/zq-widgets"] = {"get": {"operationId": "listItems", "tags": ["zqwidgets", "zqinventory"], "responses": okr}}
+            dg["paths"]["/zq-gadgets"] = {"get": {"operationId": "list_items", "tags": ["zqgadgets", "zqcatalog"], "responses": okr}}
+            dg["paths"]["/zq-third"] = {"post": {"operationId": "list-items", "tags": ["zqthird", "zqwidgets2"], "responses": okr}}
+            add("base_multitag", "none", doc=dg, meta="none")
+            add("generate_all_tags", "multitag_collision", doc=dg, meta="none", cfg={"generate_all_tags": True})
     # class_overrides need the real class name: resolve after the base manifest is known -> two phases
-    phase1 = [j for j in jobs if info[j["id"]][1] == "base"]
+    phase1 = [j for j in jobs if info[j["id"]][1] in ("base", "base_multitag")]
     res1 = dict(zip([j["id"] for j in phase1], run.map(phase1, timeout=300)))
     base = {}
     for j in phase1:
-        bi, _, variant = info[j["id"]]
-        base[(bi, variant)] = (j, res1[j["id"]])
+        bi, opt_, variant = info[j["id"]]
+        base[(bi, variant if opt_ == "base" else "multitag")] = (j, res1[j["id"]])
     phase2 = []
     for j in jobs:
         bi, option, variant = info[j["id"]]
-        if option == "base":
+        if option in ("base", "base_multitag"):
             continue
         if option == "class_overrides":
             bres = base[(bi, "none")][1]
@@ -162,7 +180,7 @@ def main() -> int:
         res = res2[j["id"]]
         if res.get("_error") or res.get("exc"):
             continue
-        bj, bres = base[(bi, "poetry" if (option in ("names",) or (option == "post_hooks" and variant == "marker")) else "none")]
+        bj, bres = base[(bi, "multitag" if variant == "multitag_collision" else ("poetry" if (option in ("names",) or (option == "post_hooks" and variant == "marker")) else "none"))]
         if bres.get("_error") or bres.get("exc") or not bres.get("accepted"):
             continue
         w = {"doc": j["doc"], "option": option, "variant": variant, "cfg": j.get("cfg"), "meta": j.get("meta")}
@@ -185,6 +203,9 @@ def main() -> int:
                 vd.violation(f"{option}:census_differs", f"{label}: {len(A)} vs {len(B)} round-trippable instances (a model disappeared or appeared)", w)
                 return
             for (aa, xa), (ab, xb) in zip(A, B):
+                if xa.get("action_exc") or xb.get("action_exc"):
+                    ev.count("sandbox_action_failed")
+                    continue
                 ev.count("behaviour_roundtrips_compared")
                 oa = ("exc", xa["exc"]["type"]) if xa.get("exc") else json.dumps(xa.get("e"), sort_keys=True)
                 ob = ("exc", xb["exc"]["type"]) if xb.get("exc") else json.dumps(xb.get("e"), sort_keys=True)
@@ -298,6 +319,20 @@ def main() -> int:
             elif variant == "failing":
                 if not any(x["level"] == "ERROR" and "false failed" in x["header"] for x in res.get("diags") or []):
                     vd.violation("post_hooks:failing_hook_not_error", f"{label}: a failing hook did not yield an ERROR diagnostic: {[x['header'] for x in res.get('diags') or []][:3]}", w)
+        elif option == "content_type_overrides" and variant.startswith("sent_as_itself:"):
+            sb = (res.get("sandbox") or {}).get("results") or []
+            if not sb or sb[0].get("action_exc"):
+                vd.violation("content_type_overrides:module_missing", f"{label}: operation with a media type overridden to {variant.split(':', 1)[1]} not generated / not importable ({[x['detail'] for x in res.get('diags') or []][:1]})", w)
+            else:
+                vr = sb[0].get("sync_detailed") or {}
+                reqs = vr.get("requests") or []
+                ev.count("content_type_override_calls")
+                if not reqs:
+                    vd.violation("content_type_overrides:call_failed", f"{label}: call raised {vr.get('exc')}", w)
+                else:
+                    ct = dict((k.lower(), v) for k, v in reqs[0]["headers"]).get("content-type")
+                    if ct != "application/vnd.zq.upload":
+                        vd.violation("content_type_overrides:sent_as_mapped_type", f"{label}: media type overridden to {variant.split(':', 1)[1]} was sent with Content-Type {ct!r} instead of itself", w)
         elif option == "content_type_overrides" and variant == "mapped":
             ref = ct_ref.get(bi)
             if not ref or ref.get("_error") or ref.get("exc"):
